@@ -4,7 +4,7 @@
 // ORD enumerated, one mutation KIND enumerated, mutation parameters symbolic) and read by the library.
 // Harness A (all byte strings vs. reference decoder incl. duplicate detection, per-entry frame, skipping of
 // unknown/deleted ids) is C04's lang_harness on the table types; it is instantiated here for the framing table.
-//@tu unwind=12 memunwind=70 loop:ReadEntries=6 timeout=600
+//@tu unwind=12 memunwind=70 loop:ReadEntries=6 loop:nested_pad_harness=30 timeout=600
 //@h _n(\d+)$ : loop:ReadEntries=7
 #include "rd.h"
 
@@ -102,3 +102,36 @@ FH(hq, 1, kDeletedId, PBR) FH(ht, 3, kDeletedId, SR)
 // Harness A: all byte strings of length N vs. the reference table decoder
 #define LH(tier, N) extern "C" void tier##_frame_lang_TF_n##N(void) { lang_harness<TF, N>(); }
 LH(hq, 2) LH(hq, 4) LH(hq, 6) LH(ht, 8) LH(ht, 3) LH(ht, 5) LH(ht, 7) LH(ht, 10) LH(ht, 12)
+
+// Padding INSIDE a nested table: an inner entry declared larger than its value (PAD bytes of padding) inside the byte
+// frame of an outer entry; exactly the surplus is skipped at both levels: the outer table's next entry and the data
+// behind the table are found where they are.
+struct IW8 { nop::Entry<bool, 1> a; nop::Entry<float, 2> b; NOP_TABLE_HASH(0x61, IW8, a, b); };
+struct OW8 { nop::Entry<IW8, 1> in; nop::Entry<bool, 2> x; NOP_TABLE_HASH(0x62, OW8, in, x); };
+template <int PAD, typename R>
+static void nested_pad_harness() {
+  const bool va = ndbool(), vx = ndbool(); float vb; Meta<float>::draw(&vb); const std::uint8_t padv = nd8(); const u32 sent = nd32();
+  // inner table bytes
+  std::uint8_t ib[24] = {}; Out i(ib, sizeof ib);
+  i.put(0xb5); ref_enc_uint(i, 0x61); ref_enc_uint(i, 2);
+  ref_enc_uint(i, 1); ref_enc_uint(i, 1 + PAD); Meta<bool>::enc(va, i); for (int k = 0; k < PAD; k++) i.put(padv);
+  ref_enc_uint(i, 2); ref_enc_uint(i, 5 + PAD); Meta<float>::enc(vb, i); for (int k = 0; k < PAD; k++) i.put(padv);
+  std::uint8_t buf[48] = {}; Out o(buf, sizeof buf);
+  o.put(0xb5); ref_enc_uint(o, 0x62); ref_enc_uint(o, 2);
+  ref_enc_uint(o, 1); ref_enc_uint(o, i.n + PAD); for (std::size_t k = 0; k < i.n; k++) o.put(ib[k]); for (int k = 0; k < PAD; k++) o.put(padv);
+  ref_enc_uint(o, 2); ref_enc_uint(o, 1); Meta<bool>::enc(vx, o);
+  const std::size_t n = o.n;
+  Meta<u32>::enc(sent, o);
+  vassume(i.fits() && o.fits());
+  OW8 r; Rd<R> rd(buf, o.n);
+  auto st = rd.read(&r);
+  vassert(!!st, 1);
+  vassert(rd.consumed() == n, 2);
+  vassert(!r.x.empty() && r.x.get() == vx && !r.in.empty() && !r.in.get().a.empty() && r.in.get().a.get() == va && !r.in.get().b.empty() && Meta<float>::eq(r.in.get().b.get(), vb), 3);
+  u32 s2 = 0; auto st2 = rd.read(&s2); vassert(!!st2 && s2 == sent, 4);
+  vrt_end();
+}
+extern "C" void hq_frame_nested_pad0__PBR(void) { nested_pad_harness<0, PBR>(); }
+extern "C" void hq_frame_nested_pad2__PBR(void) { nested_pad_harness<2, PBR>(); }
+extern "C" void ht_frame_nested_pad3__SR(void) { nested_pad_harness<3, SR>(); }
+extern "C" void ht_frame_nested_pad1__BR(void) { nested_pad_harness<1, BR>(); }
